@@ -11,7 +11,7 @@ pub mod tests;
 // ================================================================================================
 
 /// The number of unique transition constraints in stack manipulation operations.
-pub const NUM_CONSTRAINTS: usize = 13;
+pub const NUM_CONSTRAINTS: usize = 15;
 
 // The co-efficient of the most significant 16-bit limb in the helper register during aggregation.
 pub const TWO_48: Felt = Felt::new(2u64.pow(48));
@@ -38,6 +38,7 @@ pub const CONSTRAINT_DEGREES: [usize; NUM_CONSTRAINTS] = [
     8, // constraint for U32MUL operation
     8, // constraint for U32MADD operation
     8, 7, 7, // constraint for U32DIV operation
+    7, 7, // 2 constraints for U32ASSERT2 operation
 ];
 
 // U32 OPERATIONS TRANSITION CONSTRAINTS
@@ -91,6 +92,10 @@ pub fn enforce_constraints<E: FieldElement<BaseField = Felt>>(
 
     // Enforce constaints of the U32DIV operations.
     index += enforce_u32div_constraints(frame, &mut result[index..], op_flag.u32div(), &limbs);
+
+    // Enforce constaints of the U32ASSERT2 operations.
+    index +=
+        enforce_u32assert2_constraints(frame, &mut result[index..], op_flag.u32assert2(), &limbs);
 
     index
 }
@@ -281,6 +286,29 @@ pub fn enforce_check_element_validity<E: FieldElement<BaseField = Felt>>(
     result[0] = u32_split_mul_madd * are_equal(v_hi_comp * limbs.v_lo(), E::ZERO);
 
     1
+}
+
+/// Enforces constraints of the U32ASSERT2 operation. The U32ASSERT2 operation leaves the stack
+/// unchanged; the helper registers hold the 16-bit limbs of the top two elements (h0 and h1 for
+/// the first element, h2 and h3 for the second element). Therefore, the following constraints are
+/// enforced:
+/// - The aggregation of the two lower limbs in the helper registers is equal to the first element
+///   of the stack.
+/// - The aggregation of the two upper limbs in the helper registers is equal to the second element
+///   of the stack.
+///
+/// Together with the range checks of the limbs this is what makes both elements 32-bit values;
+/// the general limb aggregation below does not cover this operation.
+pub fn enforce_u32assert2_constraints<E: FieldElement<BaseField = Felt>>(
+    frame: &EvaluationFrame<E>,
+    result: &mut [E],
+    op_flag: E,
+    limbs: &LimbCompositions<E>,
+) -> usize {
+    result[0] = op_flag * are_equal(frame.stack_item_next(0), limbs.v_lo());
+    result[1] = op_flag * are_equal(frame.stack_item_next(1), limbs.v_hi());
+
+    2
 }
 
 /// Enforces constraints of the general operation. The constaints checks if the lower 16-bits limbs
